@@ -193,11 +193,16 @@ def run(tier, seed, replay_path=None):
         for i in range(3000 if deep else 300):
             m = rng.choice(pairs)
             ks = rng.sample(known_dec, rng.randint(1, 4)) + ([rng.choice([u for u in unk[:300]])] if rng.random() < 0.3 else [])
+            if i % 2:
+                # a particle together with its antiparticle in one decay line (the visitor meets one after the other)
+                ks += [t["evt_conj"][k] for k in ks if t["evt_conj"].get(k)]
             fs = sorted([k, rng.randint(1, 4)] for k in set(ks))
             args.append((len(cases) + len(args), (m, t["evt_conj"][m]), False, fs, seed * 5 + i))
         for i in range(1500 if deep else 200):
             m = rng.choice(pairs)
             ks = rng.sample(known_dec, rng.randint(1, 4))
+            if i % 2:
+                ks += [t["evt_conj"][k] for k in ks if t["evt_conj"].get(k)]
             fs = sorted([k, rng.randint(1, 3)] for k in set(ks))
             args.append((len(cases) + len(args), ("tree", m), False, fs, seed * 7 + i))
         cases += pmap(build_fs, args)
